@@ -164,33 +164,68 @@ def run_engine(ctx, binpath, test, cases, tag):
 
 
 EXTRACT_V = """From Coq Require Import Extraction ExtrOcamlBasic List NArith.
-From Verif Require Import Trie.Model Trie.Proof Trie.BatchModel%s.
+From Verif Require Import Trie.Model Trie.Proof Trie.BatchModel Trie.RevertModel%s.
 Extraction Language OCaml.
 Extraction "trie_model.ml" trie_update get root bytes_to_bits mproof compress
   verify_inclusion verify_non_inclusion verify_inclusion_c verify_non_inclusion_c
-  trie_update_b commit_store serialize_batch parse_batch abs_batch_store%s.
+  trie_update_b commit_store serialize_batch parse_batch abs_batch_store revert_dels%s.
 """
 
 
+def ensure_vo(ctx, names):
+    """make the given coq/<name>.vo only when missing or older than the source (a make run
+    re-scans the whole shared tree and waits for the global lock)."""
+    import vf
+    stale = False
+    for n in names:
+        v, vo = os.path.join(vf.COQ, n + ".v"), os.path.join(vf.COQ, n + ".vo")
+        if not os.path.exists(vo) or os.path.getmtime(vo) < os.path.getmtime(v):
+            stale = True
+    if stale:
+        return ctx.coq_make([n + ".vo" for n in names])
+    return 0, ""
+
+
 def build_driver(ctx, extra_import="", extra_syms=""):
-    """Extract the model (ExtrOcamlBasic only) and build the OCaml driver in build/<id>/coq."""
+    """Extract the model (ExtrOcamlBasic only) and build the OCaml driver in build/<id>/coq.
+    The .vo files are rebuilt only when stale; the binary only when the extracted code or the
+    driver sources changed."""
+    import hashlib
     import shutil
     import vf
-    rc, out = ctx.coq_make(["Trie/Proof.vo", "Trie/BatchModel.vo"])
-    if rc != 0:
-        return None, "coq/Trie/Proof.v does not build: " + out[-1500:]
-    rc, out = ctx.coq_eval("extract_trie", EXTRACT_V % (extra_import, extra_syms), timeout=600)
+    need = ["Trie/Model", "Trie/Proof", "Trie/BatchModel", "Trie/RevertModel"]
+    stale = False
+    for n in need:
+        v, vo = os.path.join(vf.COQ, n + ".v"), os.path.join(vf.COQ, n + ".vo")
+        if not os.path.exists(vo) or os.path.getmtime(vo) < os.path.getmtime(v):
+            stale = True
+    if stale:
+        rc, out = ctx.coq_make([n + ".vo" for n in need])
+        if rc != 0:
+            return None, "coq/Trie model files do not build: " + out[-1500:]
     d = os.path.join(ctx.workdir, "coq")
-    if rc != 0 or not os.path.exists(os.path.join(d, "trie_model.ml")):
+    os.makedirs(d, exist_ok=True)
+    ml = os.path.join(d, "trie_model.ml")
+    if os.path.exists(ml):
+        os.remove(ml)
+    rc, out = ctx.coq_eval("extract_trie", EXTRACT_V % (extra_import, extra_syms), timeout=600)
+    if rc != 0 or not os.path.exists(ml):
         return None, "extraction failed: " + out[-1500:]
     src = os.path.join(vf.HARNESS, "engines", "trie")
+    hh = hashlib.sha256()
+    for f in (ml, os.path.join(src, "driver.ml"), os.path.join(src, "driver_c11.ml")):
+        hh.update(open(f, "rb").read())
+    stamp = os.path.join(d, "trie_driver.stamp")
+    exe = os.path.join(d, "trie_driver")
+    if os.path.exists(exe) and os.path.exists(stamp) and open(stamp).read() == hh.hexdigest():
+        return exe, None
     for f in ("driver.ml", "driver_c11.ml"):
         shutil.copy(os.path.join(src, f), os.path.join(d, f))
-    exe = os.path.join(d, "trie_driver")
-    rc, out = vf.sh(["ocamlfind", "ocamlopt", "-O3", "-w", "-a", "trie_model.mli", "trie_model.ml",
+    rc, out = vf.sh(["ocamlfind", "ocamlopt", "-w", "-a", "trie_model.mli", "trie_model.ml",
                      "driver_c11.ml", "driver.ml", "-o", exe], cwd=d, timeout=600)
     if rc != 0:
         return None, "driver build failed: " + out[-1500:]
+    open(stamp, "w").write(hh.hexdigest())
     return exe, None
 
 
